@@ -50,6 +50,8 @@ def graphs(n, max_dep):
                 opts = [()]
             elif k == "A":
                 opts = [((j, "item"),) for j in earlier if kinds[j] in ("S", "E", "H", "U", "A", "D")]
+                # ... and arrays whose items are REFERENCES to an earlier node (Ref[N0][3])
+                opts += [((j, "refitem"),) for j in earlier if kinds[j] in ("S", "E", "H", "A", "D")]
             elif k == "D":
                 opts = [((j, "base"),) for j in earlier if kinds[j] == "A"]
             elif k == "U":
@@ -96,7 +98,7 @@ def build_classes(kinds, se, deps=()):
         elif k == "E":
             c = type(name, (xo.Struct,), dict(_depends_on=[]))
         elif k == "A":
-            c = classes[se[i][0][0]][2 + i]  # distinct extents: two array nodes over the same item must not share a class name
+            c = (xo.Ref[classes[se[i][0][0]]] if se[i][0][1] == "refitem" else classes[se[i][0][0]])[2 + i]  # distinct extents: two array nodes over the same item must not share a class name
         elif k == "D":
             c = type(name, (classes[se[i][0][0]],), {})  # class N2(N1): pass -- N1 an array class that may be built itself
         elif k == "U":
@@ -135,8 +137,14 @@ def model(kinds, se, deps, classes):
         for j, how in se[i]:
             if how == "base":
                 # a declared subclass has the item of its base, not the base, as dependency
-                need[c.__name__].add(classes[se[j][0][0]].__name__)
-            elif how == "ref":
+                bj, bhow = se[j][0]
+                if bhow == "refitem":
+                    rn = "Ref" + classes[bj].__name__
+                    need.setdefault(rn, set()).add(classes[bj].__name__)
+                    need[c.__name__].add(rn)
+                else:
+                    need[c.__name__].add(classes[bj].__name__)
+            elif how in ("ref", "refitem"):
                 rn = "Ref" + classes[j].__name__
                 need.setdefault(rn, set()).add(classes[j].__name__)
                 need[c.__name__].add(rn)
